@@ -218,6 +218,15 @@ func replayMain(property, path string, register func(r *Registry), verbose bool)
 				fmt.Println("INTERNAL:", x.internal.Msg)
 				return exitInternal
 			}
+			for _, rp := range x.reports {
+				fmt.Printf("REPLAY-FAILS key=%s\n%s\n", rp.Key, rp.Msg)
+			}
+			if x.fail == nil && len(x.reports) > 0 {
+				if verbose {
+					fmt.Printf("VIOLATION property=%s replay=%s\n", property, path)
+				}
+				return exitViolation
+			}
 			if x.fail != nil {
 				fmt.Printf("REPLAY-FAILS key=%s\n%s\n", x.fail.Key, x.fail.Msg)
 				if verbose {
@@ -432,6 +441,8 @@ func parentMain(property, tier string, register func(r *Registry)) int {
 			m.Pruned += st.Pruned
 			m.NonTrivial += st.NonTrivial
 			m.Violations += st.Violations
+			m.XStates += st.XStates
+			m.XTrans += st.XTrans
 			m.Mode = st.Mode
 			if st.MaxDepth > m.MaxDepth {
 				m.MaxDepth = st.MaxDepth
@@ -441,6 +452,9 @@ func parentMain(property, tier string, register func(r *Registry)) int {
 			}
 			if !st.Complete {
 				m.Complete = false
+			}
+			if st.Incomplete != "" {
+				capped = st.Incomplete
 			}
 		}
 		for n, hs := range wr.OutcomeSet {
@@ -568,6 +582,8 @@ func parentMain(property, tier string, register func(r *Registry)) int {
 		tot.Pruned += m.Pruned
 		tot.NonTrivial += m.NonTrivial
 		tot.Violations += m.Violations
+		tot.XStates += m.XStates
+		tot.XTrans += m.XTrans
 		if m.MaxDepth > tot.MaxDepth {
 			tot.MaxDepth = m.MaxDepth
 		}
@@ -580,7 +596,7 @@ func parentMain(property, tier string, register func(r *Registry)) int {
 			tags[t] += c
 		}
 		scList = append(scList, map[string]any{"name": n, "mode": m.Mode, "executions": m.Executions, "transitions": m.Transitions,
-			"states": m.Transitions + 1, "max_depth": m.MaxDepth, "sleep_set_pruned": m.Pruned, "distinct_outcomes": len(outcomes[n]),
+			"states": m.Transitions + 1 + m.XStates, "search_states": m.XStates, "search_transitions": m.XTrans, "max_depth": m.MaxDepth, "sleep_set_pruned": m.Pruned, "distinct_outcomes": len(outcomes[n]),
 			"nontrivial_executions": m.NonTrivial, "distinct_nontrivial_outcomes": len(ntOutcomes[n]), "violating_executions": m.Violations, "complete": m.Complete})
 	}
 	if len(samples) > 12 {
@@ -598,8 +614,8 @@ func parentMain(property, tier string, register func(r *Registry)) int {
 		sampleOut = append(sampleOut, "no execution recorded")
 	}
 	cov := map[string]any{
-		"states":                        tot.Transitions + int64(len(order)),
-		"transitions":                   tot.Transitions,
+		"states":                        tot.Transitions + int64(len(order)) + tot.XStates,
+		"transitions":                   tot.Transitions + tot.XTrans,
 		"executions":                    tot.Executions,
 		"traces_validated_against_impl": tot.Executions,
 		"evaluations":                   tot.Executions,
@@ -645,7 +661,7 @@ func parentMain(property, tier string, register func(r *Registry)) int {
 		return exitInternal
 	}
 	fmt.Printf("%s %s: scenarios=%d executions=%d states=%d transitions=%d distinct_outcomes=%d nontrivial=%d violations(new)=%d known=%d exhaustive=%v wall=%.1fs\n",
-		property, tier, len(order), tot.Executions, tot.Transitions+int64(len(order)), tot.Transitions, distinct, distinctNT, unknownCount, len(knownHit), allComplete && capped == "", time.Since(start).Seconds())
+		property, tier, len(order), tot.Executions, tot.Transitions+int64(len(order))+tot.XStates, tot.Transitions+tot.XTrans, distinct, distinctNT, unknownCount, len(knownHit), allComplete && capped == "", time.Since(start).Seconds())
 	return exit
 }
 
